@@ -336,9 +336,10 @@ func leaked() string {
 	buf = buf[:runtime.Stack(buf, true)]
 	d := string(buf)
 	var out []string
-	for _, fn := range []string{"rosmar.(*dcpFeed).run(", "rosmar.(*expiryManager).runExpiry(", "rosmar.(*Collection).updateView("} {
+	// (prefixes: the closures a feed starts - its terminator watcher is "(*dcpFeed).run.func1" - count too)
+	for _, fn := range []string{"rosmar.(*dcpFeed).run", "rosmar.(*expiryManager).runExpiry", "rosmar.(*Collection).updateView", "rosmar.(*Bucket).StartDCPFeed.func"} {
 		if n := strings.Count(d, fn); n > 0 {
-			out = append(out, fmt.Sprintf("%dx %s", n, strings.TrimSuffix(strings.TrimPrefix(fn, "rosmar."), "(")))
+			out = append(out, fmt.Sprintf("%dx %s", n, strings.TrimPrefix(fn, "rosmar.")))
 		}
 	}
 	return strings.Join(out, ", ")
